@@ -211,6 +211,82 @@ func phiDeadEdges(x *ssa.Phi) map[int]bool {
 	return d
 }
 
+// constTaken: the successor a branch on a constant condition always takes (-1: not such a branch). Branches on
+// constants appear where a helper taking a flag was inlined with the flag's value.
+func constTaken(b *ssa.BasicBlock) int {
+	if len(b.Instrs) == 0 || len(b.Succs) != 2 {
+		return -1
+	}
+	iff, ok := b.Instrs[len(b.Instrs)-1].(*ssa.If)
+	if !ok {
+		return -1
+	}
+	c, truth := normCond(iff.Cond, true)
+	k, ok := c.(*ssa.Const)
+	if !ok || k.Value == nil || k.Value.Kind() != constant.Bool {
+		return -1
+	}
+	if constant.BoolVal(k.Value) == truth {
+		return 0
+	}
+	return 1
+}
+
+var (
+	constReachMu    sync.Mutex
+	constReachCache = map[*ssa.Function]map[*ssa.BasicBlock]bool{}
+)
+
+// constReachable: the blocks reachable from the entry when branches on constants only go the way they always go.
+func constReachable(f *ssa.Function) map[*ssa.BasicBlock]bool {
+	constReachMu.Lock()
+	r, ok := constReachCache[f]
+	constReachMu.Unlock()
+	if ok {
+		return r
+	}
+	r = map[*ssa.BasicBlock]bool{}
+	if len(f.Blocks) > 0 {
+		work := []*ssa.BasicBlock{f.Blocks[0]}
+		for len(work) > 0 {
+			b := work[len(work)-1]
+			work = work[:len(work)-1]
+			if r[b] {
+				continue
+			}
+			r[b] = true
+			if t := constTaken(b); t >= 0 {
+				work = append(work, b.Succs[t])
+			} else {
+				work = append(work, b.Succs...)
+			}
+		}
+	}
+	constReachMu.Lock()
+	constReachCache[f] = r
+	constReachMu.Unlock()
+	return r
+}
+
+// constDeadEdges: the ways into m that no execution takes because a branch on a constant never goes there.
+func constDeadEdges(m *ssa.BasicBlock) map[int]bool {
+	reach := constReachable(m.Parent())
+	var dead map[int]bool
+	for j, q := range m.Preds {
+		d := !reach[q]
+		if t := constTaken(q); !d && t >= 0 && q.Succs[t] != m {
+			d = true
+		}
+		if d {
+			if dead == nil {
+				dead = map[int]bool{}
+			}
+			dead[j] = true
+		}
+	}
+	return dead
+}
+
 func computePhiDeadEdges(x *ssa.Phi) map[int]bool {
 	if os.Getenv("AVFSLINT_NOMUSTFACTS") != "" {
 		return nil
@@ -218,6 +294,9 @@ func computePhiDeadEdges(x *ssa.Phi) map[int]bool {
 	m := x.Block()
 	if m == nil || len(m.Instrs) == 0 || len(m.Preds) < 2 {
 		return nil
+	}
+	if d := constDeadEdges(m); len(d) > 0 && len(d) < len(m.Preds) {
+		return d
 	}
 	iff, ok := m.Instrs[len(m.Instrs)-1].(*ssa.If)
 	if !ok || len(m.Succs) != 2 || m.Succs[0] == m.Succs[1] {
